@@ -267,3 +267,4 @@ TEXT["C05"]["level"] += (" DataSourceMetadataSource.list_mementos is proved to m
 TEXT["C05"]["level"] += (" DataSourceMetadataSource.list_functions is proved to make one listing of the metadata root 'm' (not recursive, no prefix) and to return, in the order listed, the reference "
                          "for exactly the qualified name each key 'm/<name>' carries (from_qualified_name is an assumed function of the name here; C12 proves it).")
 TEXT["C12"]["note"] += " (Since then DataSourceMetadataSource.get_mementos is under contract in this check, and list_functions / list_mementos of the metadata source in C05's.)"
+TEXT["C05"]["level"] += " DataSourceMetadataSource.all_mementos_exist is proved to answer true exactly when the memento file of every requested call exists, each call asked about under its own memento path."
